@@ -22,7 +22,7 @@ RULE = ('case = (key algorithm, protection cipher, S2K hash, passphrase class) |
         'was injected; distinct = distinct case descriptors')
 ASSUMPTIONS = ['CPython cannot wipe immutable ints: "holds no secret integer" is checked on the object graph reachable from the key, not on freed heap memory',
                'failpoints are never placed inside the cleanup code itself (user code cannot fail there)']
-MIN_COUNTERS = {'quick': {'protect_checked': 20, 'ref_recovered_secrets': 40, 'foreign_unlocked': 30, 'history_steps': 100, 'faults_injected': 1500, 'graph_scans': 1500, 'wrong_passphrase_rejected': 30, 'wrong_passphrase_rejected_while_open': 30, 'stub_operations_refused': 100},
+MIN_COUNTERS = {'quick': {'protect_checked': 20, 'ref_recovered_secrets': 40, 'foreign_unlocked': 30, 'history_steps': 100, 'faults_injected': 1500, 'graph_scans': 1500, 'wrong_passphrase_rejected': 30, 'wrong_passphrase_rejected_while_open': 30, 'stub_operations_refused': 100, 'mixed_locked_operations_refused': 30, 'mixed_unlocked_operations': 15},
                 'thorough': {'faults_injected': 8000, 'history_steps': 1500}}
 BUDGET = {'quick': (600, 1500), 'thorough': (1800, 3600)}
 TECHNIQUE = 'runtime monitoring: reference-model monitor on exports + history model + control-fault injection (sys.monitoring LINE failpoints at every line of the unlock scope) with object-graph invariant scan'
@@ -61,6 +61,10 @@ def cases(tier, seed):
         cs.append({'t': 'gnu', 'key': name, 'ext': 2})
     for h in range(12 if tier == 'quick' else 240):
         cs.append({'t': 'history', 'h': h, 'seed': seed, 'key': KEYS[h % len(KEYS)][0], 'sub': KEYS[h % len(KEYS)][1], 'n': 12})
+    # an open primary over a component that is protected on its own: the operation is handed to the subkey by its usage flags
+    for prim in ('ed25519_1', 'rsa1024_2', 'ecdsa_p256_1'):
+        for sub in ('ed25519_2', 'rsa1024_1', 'dsa1024_1', 'ecdsa_p384_1', 'cv25519_1', 'ecdh_p256_1'):
+            cs.append({'t': 'mixed', 'key': prim, 'sub': sub})
     for name, op in (('ed25519_0', 'sign'), ('rsa1024_0', 'sign'), ('dsa1024_0', 'sign'), ('ecdsa_p256_0', 'sign'), ('cv25519_0', 'decrypt'), ('rsa1024_1', 'decrypt'), ('ecdh_p256_0', 'decrypt')):
         parts = 8
         for p in range(parts):
@@ -167,6 +171,70 @@ def run_case(ctx, d):
     with warnings.catch_warnings():
         warnings.simplefilter('ignore')
         getattr(__import__(__name__, fromlist=['x']), '_' + d['t'])(ctx, d, pgpy)
+
+
+def _mixed(ctx, d, pgpy):
+    """primary without protection (certify only), subkey protected and locked: whatever is called on the primary and handed to the subkey
+    must be refused while the subkey is locked, work inside the subkey's scope, and be refused again afterwards"""
+    from .. import foreignkey
+    from ..ref import sym
+    sm = pool.mat(d['sub'])
+    signing = sm['alg'] in (1, 17, 19, 22)
+    flags = b'\x02' if signing and sm['alg'] != 1 else (b'\x0e' if sm['alg'] == 1 else b'\x0c')
+    prot = dict(usage=254, cipher=9, s2k=(3, 8, b'\x11\x12\x13\x14\x15\x16\x17\x18', 96), iv=bytes(range(1, 1 + sym.blocksize(9))), passphrase=b'sub pass')
+    raw, desc = foreignkey.build(d['key'], d['sub'], protect=None, sub_protect=prot, sub_flags=flags, primary_flags=b'\x01', created=None)
+    k = pgpy.PGPKey.from_blob(raw)[0]
+    sk = list(k.subkeys.values())[0]
+    ctx.count('evaluations')
+    if k.is_protected or not sk.is_protected or sk.is_unlocked:
+        ctx.fail('foreign-protected-key-not-locked', {'case': d, 'primary_protected': k.is_protected, 'sub_protected': sk.is_protected, 'sub_unlocked': sk.is_unlocked})
+        return
+    enc = None
+    if flags[0] & 0x0c:
+        try:
+            enc = k.pubkey.encrypt(pgpy.PGPMessage.new('for the subkey'))
+        except Exception as e:
+            ctx.outcome('mixed_encrypt_error:' + type(e).__name__)
+
+    def ops():
+        o = []
+        if flags[0] & 0x02:
+            o.append(('sign', lambda: k.sign('doc')))
+            o.append(('sign_message', lambda: k.sign(pgpy.PGPMessage.new('m'))))
+        if enc is not None:
+            o.append(('decrypt', lambda: k.decrypt(enc)))
+        return o
+
+    def refused(where):
+        for name, f in ops():
+            ctx.count('evaluations')
+            ctx.count('mixed_locked_operations_tried')
+            try:
+                r_ = f()
+            except pgpy.errors.PGPError:
+                ctx.count('mixed_locked_operations_refused')
+                continue
+            except Exception as e:
+                ctx.outcome('mixed_%s_error:%s' % (name, type(e).__name__))
+                ctx.fail('locked-key-operation-reached-the-secret', {'case': d, 'where': where, 'op': name, 'error': '%s: %s' % (type(e).__name__, str(e)[:100])})
+                continue
+            ctx.fail('private-operation-on-locked-key-succeeded', {'case': d, 'where': where, 'op': name, 'result': hx(bytes(r_))[:60]})
+
+    refused('open primary, subkey never unlocked')
+    try:
+        with sk.unlock('sub pass'):
+            for name, f in ops():
+                ctx.count('evaluations')
+                r_ = f()
+                if name == 'sign' and not k.pubkey.verify('doc', r_):
+                    ctx.fail('signature-by-unlocked-key-invalid', {'case': d, 'where': 'mixed'})
+                if name == 'decrypt' and r_.message != 'for the subkey':
+                    ctx.fail('decrypt-by-unlocked-key-differs', {'case': d, 'where': 'mixed'})
+                ctx.count('mixed_unlocked_operations')
+    except Exception as e:
+        ctx.fail('foreign-protected-key-cannot-be-unlocked', {'case': d, 'err': '%s: %s' % (type(e).__name__, str(e)[:200])})
+    refused('open primary, after the subkey scope')
+    ctx.nontrivial(d)
 
 
 def _check_export_hides(ctx, k, names, where):
